@@ -88,14 +88,16 @@ def _gen_cfg(rng, prop):
 
 def _fault_for(rng, cfg):
     if cfg["dest_kind"] == "remote":
-        stage = gen.weighted(rng, [(6, "put_lost"), (3, "ack_lost")])
-        exc = rng.choice(["ConnectionError", "EIO", "TimeoutError"])
+        stage = gen.weighted(rng, [(6, "put_lost"), (3, "ack_lost")] + ([(4, "partial")] if cfg.get("non_atomic") else []))
+        exc = rng.choice(["ConnectionError", "EIO", "TimeoutError", "EACCES"])
+        if stage == "partial" and exc == "EACCES":
+            exc = "EIO"  # permission errors are raised when opening, before any byte is written
     else:
         stages = [(5, "create"), (3, "mid"), (2, "rename")]
         if cfg["reflink"] == "cow" or cfg["hardlink"]:
             stages = [(1, "create")]
         stage = gen.weighted(rng, stages)
-        exc = "ENOSPC" if stage == "mid" else rng.choice(["EIO", "ENOSPC"])
+        exc = "ENOSPC" if stage == "mid" else rng.choice(["EIO", "ENOSPC", "EACCES"])
     return {"stage": stage, "exc": exc}
 
 
@@ -136,6 +138,23 @@ def generate(prop, rng):
         for c in loose:
             if rng.random() < 0.3:
                 dest.add(f"c{c}")
+        indexed, vanished = [], []
+        if cfg["use_index"] and rng.random() < 0.5:
+            # an earlier successful push indexed these trees; some of them have
+            # since vanished from the destination (another client's gc)
+            indexed = sorted(t for t in tlabels if t in dest and set(children[t]) <= dest and rng.random() < 0.8)
+            vanished = sorted(t for t in indexed if rng.random() < 0.5)
+            vanished = sorted({b for a in vanished for b in tlabels if trees[int(a[1:])] == trees[int(b[1:])]})
+            indexed = sorted(set(indexed) | set(vanished))
+            keep = set()
+            for t in tlabels:
+                if t in dest and t not in vanished:
+                    keep.update(children[t])
+            for t in vanished:
+                dest.discard(t)
+                for c in children[t]:
+                    if c not in keep and rng.random() < 0.7:
+                        dest.discard(c)
         src_missing = []
         if rng.random() < 0.3:
             cand = sorted(l for l in src if l.startswith("c") and l not in dest)
@@ -143,10 +162,12 @@ def generate(prop, rng):
                 src_missing = rng.sample(cand, rng.randint(1, min(2, len(cand))))
         sc.update(
             request=request, src=sorted(src - set(src_missing)), dest=sorted(dest), corrupt={},
-            src_missing=sorted(src_missing),
+            src_missing=sorted(src_missing), indexed=indexed, vanished=vanished,
         )
     else:  # C11: open world
         cfg["verify"] = rng.random() < 0.4
+        cfg["dest_state"] = cfg["dest_kind"] != "remote" and rng.random() < 0.4
+        cfg["non_atomic"] = cfg["dest_kind"] == "remote" and rng.random() < 0.3
         request = []
         for t in req_trees:
             request.append(t)
@@ -272,6 +293,7 @@ def _fault_rules(sc, m, labels):
             "rename": ("rename",),
             "put_lost": ("r_put",),
             "ack_lost": ("r_put_ack",),
+            "partial": ("r_put_mid",),
         }[fk["stage"]]
         rules.append(
             {"at": at, "match": match, "exc": fk["exc"], "name": fk["stage"], "count": 1}
@@ -316,7 +338,15 @@ class Run:
         self.src = self.w.odb("src", cfg["src_kind"])
         dk = cfg["dest_kind"]
         self.dname = "rs" if dk == "remote" else "dest"
-        self.dest = self.w.odb(self.dname, dk, verify=cfg.get("verify", False))
+        dconf = {}
+        if cfg.get("dest_state") and dk != "remote":
+            self.dstate = self.w.state("tmp", root_dir=sub)
+            dconf["state"] = self.dstate
+        else:
+            self.dstate = None
+        self.dest = self.w.odb(self.dname, dk, verify=cfg.get("verify", False), **dconf)
+        if dk == "remote":
+            self.w.remote_fs(self.dname).non_atomic = bool(cfg.get("non_atomic"))
         for lab in sc["src"]:
             oid = m.oid[lab]
             data = m.bytes[oid]
@@ -365,6 +395,8 @@ class Run:
     def close(self):
         if self.index is not None:
             self.index.close()
+        if self.dstate is not None:
+            self.dstate.close()
 
 
 def _oid_from_rel(prefix, rel):
@@ -836,6 +868,14 @@ def valid(sc):
         if not closed(dest):
             return False
     if sc["prop"] == "C04":
+        idx, van = set(sc.get("indexed", [])), set(sc.get("vanished", []))
+        if (idx or van) and not sc["cfg"]["use_index"]:
+            return False
+        if not van <= idx or van & dest or not (idx - van) <= dest:
+            return False
+        for t in van:
+            if any(M_same_oid(trees, t, b) for b in ch if b in dest):
+                return False
         req = set(sc["request"])
         if sc["cfg"]["shallow"] and not closed(req):
             return False
@@ -895,7 +935,7 @@ def simplify(sc):
     simple = {
         "jobs": 1, "use_index": False, "reflink": "enotsup", "hardlink": False,
         "page_size": 1000, "tick_ns": 1_000_000, "cache_odb": None, "src_kind": "local",
-        "traverse_prefix_len": 2,
+        "traverse_prefix_len": 2, "dest_state": False,
     }  # fmt: skip
     for k, v in simple.items():
         if k in sc["cfg"] and sc["cfg"][k] != v:
